@@ -404,7 +404,7 @@ def run_localpool(case):
                     res.violation("state-mismatch:local", "local pool: %s shown as %r, expected %s (pool states %s)" % (n, table.get(n), sorted(w), pool.states()), table=table)
             # cancel slow -> slow cancelled, late cancelled (dependency cancelled)
             r = cli.gwf(proj.root, ["cancel", "slow"], env, audit=False)
-            if not pool.wait_states(lambda st: st.get(tid["slow"]) == "CANCELLED" and st.get(tid["late"]) not in ("SUBMITTED", "RUNNING"), timeout=40):
+            if not pool.wait_states(lambda st: st.get(tid["slow"]) not in ("SUBMITTED", "RUNNING") and st.get(tid["late"]) not in ("SUBMITTED", "RUNNING"), timeout=40):
                 raise Inconclusive("pool did not carry out the cancellation in time: %s" % pool.states())
             r = cli.gwf(proj.root, ["status"], env, audit=False)
             table = dict(cli.parse_status(r.out))
